@@ -131,3 +131,5 @@ func main() {
 	}
 	res.Write(f.Out)
 }
+
+func sha256sum(b []byte) [32]byte { return sha256.Sum256(b) }
